@@ -1,7 +1,13 @@
 pub mod c01;
+pub mod c11;
+pub mod c13;
+pub mod c14;
+pub mod c18;
+pub mod c19;
+pub mod common;
 
 use crate::runner::Prop;
 
 pub fn all() -> Vec<Prop> {
-    vec![c01::prop()]
+    vec![c01::prop(), c11::prop(), c13::prop(), c14::prop(), c18::prop(), c19::prop()]
 }
